@@ -3,20 +3,21 @@ Decides: (a) every text emission of the serializer passes percent_encode (TAINT)
 characters and on the empty-section convention; serde-method support matrix. Decoder panic/unsafe clauses: C08."""
 import re
 
-from .lib import decision, guards, paths
+from .lib import reach, decision, guards, paths
 from .lib.mir import AnchorLost
 
 CONFIGS_QUICK = ["A"]
 CONFIGS_THOROUGH = ["A", "R"]
 TECHNIQUE = "intra-procedural taint (provenance of every value pushed to the output) over all serializer methods; separator literal tables of writer vs reader; support matrix of serialize_*/deserialize_*"
-LEVEL_TEXT = ('Decides clauses C09-a..d: in every method of the URL-encoded Serializer and of its compound serializers, whatever is appended to the output is a '
+LEVEL_TEXT = ('Decides clauses C09-a..e: in every method of the URL-encoded Serializer and of its compound serializers, whatever is appended to the output is a '
               'separator literal (& = ,), the literals true/false, the to_string of a numeric primitive, or the result of percent_encode -- a &str or char parameter '
               'never reaches the output raw; the separators the writer emits are exactly the bytes the reader dispatches on; None/unit are written as the empty '
               'section and read back by testing for it; for every serde data-model kind the serializer supports, the matching deserialize_* is not an unconditional '
               'error; deserialize_char accepts exactly the decoded texts of one Unicode scalar value (decided by the char iterator, not by a byte length); the '
               'sequence reader steps over the `,` the writer puts between elements, raises no `separator missing` error on the path that found the separator, and '
-              'decodes each element with the decoder of scalar values. Decides these clauses, not round-trip equality for all values (e.g. the comma-separated '
-              'sequence reader).')
+              'decodes each element with the decoder of scalar values; from deserialize_ignored_any no decoding or validating function is reachable (the value of an '
+              'unknown key is skipped raw, so it cannot influence the outcome). Decides these clauses, not round-trip equality for all values (e.g. the comma-'
+              'separated sequence reader).')
 
 SER = r"ohkami_lib::serde_urlencoded::ser::URLEncodedSerializer"
 NUMERIC = {"u8", "u16", "u32", "u64", "u128", "usize", "i8", "i16", "i32", "i64", "i128", "isize", "f32", "f64"}
@@ -32,6 +33,7 @@ def run(ck, progs):
         ck.guard("C09-b TABLE grammar", lambda: c09b(ck, prog))
         ck.guard("C09-c DECISION char", lambda: c09c(ck, prog))
         ck.guard("C09-d PAIR sequence reader", lambda: c09d(ck, prog))
+        ck.guard("C09-e REACH unknown pairs", lambda: c09e(ck, prog))
     ck.config = None
 
 
@@ -254,3 +256,24 @@ def c09d(ck, prog):
     ck.ob(R, "reader:separator-consumed", ok, f.loc(None),
           "" if ok else "no assignment to `section` steps over the `,` that ended the previous element (%d assignment(s) to `section`): the second element would start with the separator" % len(stores),
           how="section = rest (after split_first / [1..]) on the non-first path")
+
+
+def c09e(ck, prog):
+    """`independent of ... unknown extra fields`: the value of a key the target does not know is skipped as a raw section.
+    From deserialize_ignored_any no decoding or validating function is reachable (percent-decoding, UTF-8 validation,
+    number parsing, another deserialize_* method): what cannot fail cannot make the outcome depend on the unknown value."""
+    R = "C09-e REACH unknown pairs"
+    roots = prog.find(r"URLEncodedDeserializer<'de> as serde_core::de::Deserializer<'de>>::deserialize_ignored_any$")
+    if len(roots) != 1:
+        raise AnchorLost("deserialize_ignored_any of the URL-encoded deserializer not found (%d)" % len(roots))
+    Rr = reach.Reach(prog, roots)
+    bad = []
+    for k, f in Rr.reached.items():
+        for c in f.calls():
+            cal = c.callee or ""
+            if re.search(r"percent_decode|from_utf8|FromStr|::parse$|Deserializer<'de>>::deserialize_(?!ignored_any)|percent_encoding::", cal):
+                bad.append((f.key, cal, f.loc(c.sp)))
+    ok = not bad
+    ck.ob(R, "ignored-value:skipped-raw", ok, bad[0][2] if bad else roots[0].loc(None),
+          "" if ok else "deserialize_ignored_any reaches `%s` (in %s): the value of an unknown key is decoded/validated, so a pair the target does not know (`legacy=caf%%E9`) can make the whole decode fail"
+          % (bad[0][1][-70:], bad[0][0][-60:]), how="%d function(s) reached from deserialize_ignored_any, no decoder among their callees" % len(Rr.reached))
